@@ -123,3 +123,30 @@ Print Assumptions C13_sum_axis_fwd_spec.
 Print Assumptions C13_sum_axis_idx_ok.
 Print Assumptions C13_tile_idx_ok.
 Print Assumptions C13_diag_idx_ok.
+
+(* ---------- triu / tril (any n x m, any offset k = kp - kn) and trace (Mask.v, MaskSpec.v) ---------- *)
+From AlgoV Require Import Mask MaskSpec.
+Theorem C13_tri_mask_nth (V : zmodType) upper kp kn n m (x : seq V) i j : (i < n)%N -> (j < m)%N ->
+  nth 0 (tri_mask upper kp kn n m x) (i * m + j) = if tri_keep upper kp kn i j then nth 0 x (i * m + j) else 0.
+Proof. exact: tri_mask_nth. Qed.
+Theorem C13_size_tri_mask (V : zmodType) upper kp kn n m (x : seq V) : size (tri_mask upper kp kn n m x) = (n * m)%N.
+Proof. exact: size_tri_mask. Qed.
+(* triu(k) and tril(k-1) partition the matrix *)
+Theorem C13_triu_tril_partition (V : zmodType) kp kn kp' kn' n m (x : seq V) o : (kp' + kn + 1 = kp + kn')%N -> (o < n * m)%N ->
+  nth 0 (tri_mask true kp kn n m x) o + nth 0 (tri_mask false kp' kn' n m x) o = nth 0 x o.
+Proof. exact: triu_tril_partition. Qed.
+Theorem C13_tri_mask_idem (V : zmodType) upper kp kn n m (x : seq V) :
+  tri_mask upper kp kn n m (tri_mask upper kp kn n m x) = tri_mask upper kp kn n m x.
+Proof. exact: tri_mask_idem. Qed.
+(* an offset that keeps every entry returns the argument (the only case in which a shortcut "nothing to cut off" is right) *)
+Theorem C13_tri_mask_all (V : zmodType) upper kp kn n m (x : seq V) : size x = (n * m)%N ->
+  (forall i j, (i < n)%N -> (j < m)%N -> tri_keep upper kp kn i j) -> tri_mask upper kp kn n m x = x.
+Proof. exact: tri_mask_all. Qed.
+Theorem C13_trace_fwd_diag (R : comRingType) n (x : seq R) : trace_fwd n x = \sum_(k < n) (diag_fwd n x)`_k.
+Proof. exact: trace_fwd_diag. Qed.
+Print Assumptions C13_tri_mask_nth.
+Print Assumptions C13_size_tri_mask.
+Print Assumptions C13_triu_tril_partition.
+Print Assumptions C13_tri_mask_idem.
+Print Assumptions C13_tri_mask_all.
+Print Assumptions C13_trace_fwd_diag.
